@@ -531,6 +531,10 @@ func nextPacket(a notifier, q <-chan *com.Packet, n *com.Packet, i device.ID, t 
 	// If we get a single packet, unpack it and send it instead.
 	// I don't think there's a super good way to do this, as we clear most of the
 	// data during write. IE: we have >1 NOPs and just a single data Packet.
+	if o.Flags.Len() == 0 {
+		// Only NoPs were queued, send a single NoP instead of an empty Multi Packet.
+		o.ID, o.Flags = 0, 0
+	}
 	if o.Flags.Len() == 1 && o.Flags&com.FlagMultiDevice == 0 && o.ID == 0 {
 		var v com.Packet
 		v.UnmarshalStream(o)
